@@ -1,4 +1,5 @@
 """C18  The decompiler's dominator tree is the true dominator tree (DESIGN §7 C18)."""
+import os
 import random
 
 from contracts import graphworld as G
@@ -9,7 +10,7 @@ META = {
     "technique": 'bounded stand-in (not proved): contract on the real dom_lt evaluated on exhaustive small graphs + seeded random graphs',
     "level": "exploration",
     "partial": True,
-    "level_text": "Bounded stand-in (NOT a proof): the contract 'dom[entry] is None and dom[v] is the immediate dominator of every "
+    "level_text": "Bounded: ALL rooted digraphs on 5 nodes without self-loops and edges into the entry (65536) and 4800 (thorough 48000) seeded random graphs of 6..40 nodes are checked in 16 batch units. Bounded stand-in (NOT a proof): the contract 'dom[entry] is None and dom[v] is the immediate dominator of every "
                   "reachable v by the removal definition' is evaluated on the real dom_lt for every rooted digraph with up to 4 nodes "
                   "(3 nodes: every edge subset incl. self-loops and every split into normal/catch edges; 4 nodes: every edge subset "
                   "without self-loops; thorough: 4 nodes with self-loops and 5 nodes without) and for seeded random graphs of 6..300 "
@@ -71,3 +72,71 @@ def random_graphs(U):
     edges = G.random_graph(rng, n, rng.choice([1, 2, 3]))
     catch = [e for e in edges if rng.random() < 0.1]
     _check(U, gmod, n, edges, catch)
+
+
+@unit("C18", covers=[(GR, "dom_lt"), (GR, "Graph.all_sucs")], level="bounded", params=[{"chunk": c} for c in range(16)], samples=1,
+      note="ALL 65536 rooted digraphs on 5 nodes without self-loops and without edges into the entry (an edge into the entry changes no "
+           "dominator; self-loops are covered for n <= 4), 4096 per chunk; thorough: additionally with one edge of each graph as a catch edge")
+def five_node_graphs(U, chunk):
+    gmod = U.mod(GR)
+    U.drawn.update({"chunk": chunk})
+    pairs = [(a, b) for a in range(5) for b in range(1, 5) if a != b]
+    tier = os.environ.get("VERIF_TIER", "quick")
+    bad, n = [], 0
+    for mask in range(chunk, 1 << len(pairs), 16):
+        edges = [p for i, p in enumerate(pairs) if mask >> i & 1]
+        variants = [()]
+        if tier != "quick" and edges:
+            variants.append((edges[mask % len(edges)],))
+        for catch in variants:
+            n += 1
+            g, nodes = G.build(gmod, 5, [e for e in edges if e not in catch], catch)
+            try:
+                res = gmod.dom_lt(g)
+            except Exception as e:      # observable outcome
+                bad.append((edges, list(catch), repr(e)[:80]))
+                continue
+            want, reach = G.idoms(5, edges)
+            got = {x.name: (d.name if d is not None else None) for x, d in res.items() if x.name in reach}
+            if got != want:
+                bad.append((edges, list(catch), got, want))
+        if len(bad) > 3:
+            break
+    U.ensures("immediate dominators are the true ones on every 5-node graph of the chunk", not bad, graphs=n, first_failures=bad[:3])
+
+
+five_node_graphs.enumerate_inputs = lambda tier, **p: iter([{}])
+five_node_graphs.conc_timeout = 300
+
+
+@unit("C18", covers=[(GR, "dom_lt"), (GR, "Graph.all_sucs")], level="bounded", params=[{"chunk": c} for c in range(16)], samples=1,
+      note="300 (thorough: 3000) seeded random graphs with 6..40 nodes per chunk (out-degree 0..3 plus a random spanning tree, about one "
+           "edge in ten a catch edge): retreating, cross and irreducible shapes that need more than 5 nodes")
+def medium_random_graphs(U, chunk):
+    gmod = U.mod(GR)
+    U.drawn.update({"chunk": chunk})
+    count = 300 if os.environ.get("VERIF_TIER", "quick") == "quick" else 3000
+    seed0 = int(os.environ.get("VERIF_SEED", "0") or 0)
+    bad = []
+    for k in range(count):
+        rng = random.Random("c18/%d/%d/%d" % (seed0, chunk, k))
+        n = rng.randint(6, 40)
+        edges = G.random_graph(rng, n, rng.choice([1, 2, 2, 3]))
+        catch = [e for e in edges if rng.random() < 0.1]
+        g, nodes = G.build(gmod, n, [e for e in edges if e not in catch], catch)
+        try:
+            res = gmod.dom_lt(g)
+        except Exception as e:
+            bad.append((n, edges, repr(e)[:80]))
+            continue
+        want, reach = G.idoms(n, edges)
+        got = {x.name: (d.name if d is not None else None) for x, d in res.items() if x.name in reach}
+        if got != want:
+            bad.append((n, edges, catch, {v: (got.get(v), want[v]) for v in want if got.get(v) != want[v]}))
+        if len(bad) > 2:
+            break
+    U.ensures("immediate dominators are the true ones on every graph of the chunk", not bad, graphs=count, first_failures=bad[:2])
+
+
+medium_random_graphs.enumerate_inputs = lambda tier, **p: iter([{}])
+medium_random_graphs.conc_timeout = 600
